@@ -492,7 +492,7 @@ def body_views(case, note):
 
 # ---------------------------------------------------------------- equality
 
-EDITS = ["name", "ws", "attr-add", "attr-del", "attr-val", "kid-add", "kid-del", "kid-text", "kid-swap-kind", "dep-field"]
+EDITS = ["name", "name-case", "ws", "attr-add", "attr-del", "attr-val", "kid-add", "kid-del", "kid-text", "kid-swap-kind", "dep-field"]
 
 
 def eq_case():
@@ -529,6 +529,8 @@ def edit(r, kind, n):
     p, t = tags[n % len(tags)]
     if kind == "name":
         return _replace(r, p, dict(t, name=t["name"] + "x"))
+    if kind == "name-case":
+        return _replace(r, p, dict(t, name=t["name"].swapcase()))
     if kind == "ws":
         return _replace(r, p, dict(t, ws=not t["ws"]))
     if kind == "attr-add":
